@@ -1,15 +1,18 @@
 (* Foreign files with the time-stamp namings (Timestamps, TimestampsDirect): the family test, and the embedding lemmas
    for what these namings list in the directory: collision_free_infix (two listings with the filter "the infix IS this
    time stamp" and two lookups: the new name and the name of its archive) and latest_timestamp_file (one listing with
-   the number filter).  The lemmas hold for every world, faults and kills included.
+   the time-stamp filter; before the repair of the code it was the number filter).  The lemmas hold for every world,
+   faults and kills included.
 
    The family test (fam_q): the listing of the model extracts an infix from the name (infix_candidate: the name ends
    with the suffix asked for, starts with the fixed name part and "_"; a tail ".restart-NNNN" is cut off) and the infix
-   passes one of the two infix filters that these namings use:
-     - the time-stamp filter IFTs std_fmt (chrono's parser reads it as r%Y-%m-%d_%H-%M-%S): cleanup and the queries,
-     - the number filter IFNum ("r", a digit, at least one more byte): latest_timestamp_file.
-   The third kind of listing, "the infix is the time stamp T" (collision_free_infix), accepts nothing that these two reject
-   as long as T is the text of an instant of the years 1970..9999.
+   passes the infix filter of these namings: the time-stamp filter IFTs std_fmt (chrono's parser reads it as
+   r%Y-%m-%d_%H-%M-%S): cleanup, the queries and - since the repair of the code - latest_timestamp_file.  (Before the
+   repair latest_timestamp_file listed with the number filter IFNum, which accepted "r", a digit and at least one more
+   byte, and the family test had to be "the time-stamp filter OR the number filter": a file with a number infix like
+   a_r00001.log or a_r1x.log was not foreign for these namings.  Now it is.)
+   The other kind of listing, "the infix is the time stamp T" (collision_free_infix), accepts nothing that this filter
+   rejects as long as T is the text of an instant of the years 1970..9999.
    tsd_member: the name passes the test as a plain file or as an archive, or it is the name of a plain member followed by
    ".gz" (collision_free_infix looks that name up; unless the suffix of the family is "gz" this is nothing new:
    tsd_member_simple). *)
@@ -22,7 +25,7 @@ From Coq Require Import ZifyN ZifyNat ZifyBool.
 Open Scope nat_scope.
 
 (* ------------------------------------------------------------------ the family test *)
-Definition ts_like (i : bytes) : bool := filter_infix 0 (IFTs std_fmt) i || filter_infix 0 IFNum i.
+Definition ts_like (i : bytes) : bool := filter_infix 0 (IFTs std_fmt) i.
 
 Definition fam_q (c : config) (o : option bytes) (n : bytes) : bool :=
   match infix_candidate (fsfx (c_spec c)) o (fixed0 c) n with Some i => ts_like i | None => false end.
@@ -35,7 +38,7 @@ Definition tsd_member (c : config) (n : bytes) : bool :=
 Definition ts_member (c : config) (n : bytes) : bool := tsd_member c n || beq n (cname c).
 
 Lemma fam_q_qf c o n off :
-  fam_q c o n = qf off (fsfx (c_spec c)) (fixed0 c) (IFTs std_fmt) o n || qf off (fsfx (c_spec c)) (fixed0 c) IFNum o n.
+  fam_q c o n = qf off (fsfx (c_spec c)) (fixed0 c) (IFTs std_fmt) o n.
 Proof. unfold fam_q, qf, ts_like. destruct (infix_candidate (fsfx (c_spec c)) o (fixed0 c) n); reflexivity. Qed.
 
 Lemma ts_like_nonempty i : ts_like i = true -> i <> [].
@@ -45,8 +48,8 @@ Proof. intros H ->. vm_compute in H. discriminate. Qed.
 Lemma fam_q_gz_name c n : fsfx (c_spec c) <> Some gz_sfx ->
   fam_q c (fsfx (c_spec c)) n = true -> fam_q c (Some gz_sfx) (n ++ dot_gz) = true.
 Proof.
-  intros Hs H. rewrite (fam_q_qf c _ _ 0%Z) in H. rewrite (fam_q_qf c _ _ 0%Z). rewrite <- gz_name_app. apply orb_true_iff in H. apply orb_true_iff.
-  destruct H as [H|H]; [left | right]; apply qf_plain_gz_name; assumption.
+  intros Hs H. rewrite (fam_q_qf c _ _ 0%Z) in H. rewrite (fam_q_qf c _ _ 0%Z). rewrite <- gz_name_app.
+  apply qf_plain_gz_name; assumption.
 Qed.
 
 Lemma tsd_member_simple c n : fsfx (c_spec c) <> Some gz_sfx ->
@@ -125,10 +128,10 @@ Proof.
   cbn [filter_infix]. destruct (beq_spec i infix) as [->|_]; [congruence | reflexivity].
 Qed.
 
-(* the number listing rejects them *)
-Lemma foreign_num off n : In n fnm -> qf off (fsfx (c_spec c)) (fixed0 c) IFNum (fsfx (c_spec c)) n = false.
+(* the time-stamp listing (latest_timestamp_file) rejects them *)
+Lemma foreign_tsl off n : In n fnm -> qf off (fsfx (c_spec c)) (fixed0 c) (IFTs std_fmt) (fsfx (c_spec c)) n = false.
 Proof.
-  intros Hn. destruct (foreign_q n Hn) as [Q1 _]. rewrite (fam_q_qf c _ _ off) in Q1. apply orb_false_iff in Q1. apply Q1.
+  intros Hn. destruct (foreign_q n Hn) as [Q1 _]. rewrite (fam_q_qf c _ _ off) in Q1. exact Q1.
 Qed.
 
 (* the names that the writer builds from a time stamp are members *)
@@ -216,8 +219,8 @@ Proof.
   unfold latest_timestamp_file. destruct rot; [reflexivity|].
   apply with_listing_embed. intros w'. rewrite !fixed_of_0.
   change (wfs (embw w')) with (emb (wfs w')). change (woff (embw w')) with (woff w'). change (wnow (embw w')) with (wnow w').
-  rewrite (filter_files_embed fn fi) by (intros n Hn; apply foreign_num; exact Hn).
-  destruct (filter_files (woff w') (fsfx (c_spec c)) (fixed0 c) (related_files (wfs w') (fsfx (c_spec c)) (fixed0 c)) IFNum (fsfx (c_spec c))) as [files|]; [|reflexivity].
+  rewrite (filter_files_embed fn fi) by (intros n Hn; apply foreign_tsl; exact Hn).
+  destruct (filter_files (woff w') (fsfx (c_spec c)) (fixed0 c) (related_files (wfs w') (fsfx (c_spec c)) (fixed0 c)) (IFTs std_fmt) (fsfx (c_spec c))) as [files|]; [|reflexivity].
   destruct (map_opt (ts_infix_from_name (c_spec c) (fixed0 c)) files) as [infixes|]; [|reflexivity].
   reflexivity.
 Qed.
@@ -242,14 +245,12 @@ Lemma eoff_same_env c w w' : same_env w w' -> eoff c w' = eoff c w.
 Proof. intros [_ [_ [H _]]]. unfold eoff. rewrite H. reflexivity. Qed.
 
 (* ------------------------------------------------------------------ which names are foreign *)
-(* both infix filters want an "r" in front *)
+(* the time-stamp filter wants an "r" in front *)
 Lemma ts_like_head i : ts_like i = true -> exists r, i = r_char :: r.
 Proof.
-  unfold ts_like. intros H. apply orb_true_iff in H. destruct H as [H|H].
-  - cbn [filter_infix] in H. unfold parse_ts_local, std_fmt in H. cbn [parse_items parse_item] in H.
-    destruct i as [|a r]; [discriminate|]. destruct (N.eqb_spec a 114%N) as [->|_]; [|discriminate]. exists r. reflexivity.
-  - cbn [filter_infix] in H. destruct i as [|a [|b [|x r]]]; try discriminate.
-    apply andb_true_iff in H. destruct H as [H _]. apply N.eqb_eq in H. subst a. eexists. reflexivity.
+  unfold ts_like. intros H.
+  cbn [filter_infix] in H. unfold parse_ts_local, std_fmt in H. cbn [parse_items parse_item] in H.
+  destruct i as [|a r]; [discriminate|]. destruct (N.eqb_spec a 114%N) as [->|_]; [|discriminate]. exists r. reflexivity.
 Qed.
 
 Lemma fam_q_shape c o n : fam_q c o n = true -> exists y, n = under (fixed0 c) ++ r_char :: y.
@@ -282,7 +283,8 @@ Proof.
 Qed.
 
 (* the test on a name of the documented shape  <fixed>_<infix>[.restart-NNNN].<suffix>  (infix without a dot): it is the
-   test of the two infix filters on the infix - a_rXYZ.log is foreign, a_r2024-05-06_07-08-09.log and a_r1x.log are not *)
+   test of the time-stamp filter on the infix - a_rXYZ.log, a_r1x.log and a_r00001.log are foreign, a_r2024-05-06_07-08-09.log is
+   not *)
 Theorem fam_q_built_name c infix rs : infix <> [] -> no_dot infix -> restart_part rs ->
   fam_q c (fsfx (c_spec c)) (nm c (infix ++ rs)) = ts_like infix.
 Proof.
